@@ -22,7 +22,7 @@ Definition EIO := 5.       (* the errno the scripted engine leaves behind for SS
 
 Definition tls0 : tlsst :=
   {| t_last := 0; t_isr := false; t_isw := false; t_supp := false; t_init := false; t_pend := -1; t_rem := 0;
-     t_server := false; t_started := false |}.
+     t_server := false; t_started := false; t_more := false |}.
 
 Definition get_tls (k : Z) : MX tlsst :=
   x <- get_ext ;; match aget k (x_tls x) with Some t => ret t | None => bad 140 end.
@@ -100,8 +100,8 @@ Definition engine (k call size : Z) : MX (Z * Z) :=
       st <- run_bios k (Z.to_nat nbio) rest ;;
       let fin := skipn (2 * Z.to_nat nbio) rest in
       if negb (st =? 0) then emit K_ENG [call; size; -1; st; -1] ;;; ret (-1, st)
-      else let res := nthZ fin 0 in let err := nthZ fin 1 in let init := nthZ fin 2 in
-           upd_tls k (fun t => t <| t_init := (init =? 1) |>) ;;;
+      else let res := nthZ fin 0 in let err := nthZ fin 1 in let init := nthZ fin 2 in let more := nthZ fin 3 in
+           upd_tls k (fun t => t <| t_init := (init =? 1) |> <| t_more := (more =? 1) |>) ;;;
            emit K_ENG [call; size; res; err; init] ;;;
            ret (res, err)
   | _ => bad 8
@@ -146,10 +146,10 @@ Definition tls_read (k size : Z) : MX Z :=
 (* returns what remains unsent. The C++ loop counts CONSECUTIVE engine calls without progress (handshakeStepsMax, reset to
    the start whenever a record went out: i = 0); [hs] is the number of such continuations still allowed. The loop itself is
    bounded by the data only, so the recursion is on [fuel] = the length of the engine script + 1: every round consumes one
-   engine event, the fuel cannot run out before the script does (Bad 140 is unreachable, see write_loop_fuel_enough). *)
+   engine event, the fuel cannot run out before the script does (Bad 145 is unreachable, see write_loop_fuel_enough). *)
 Fixpoint write_loop (fuel : nat) (hs : nat) (k remaining : Z) : MX Z :=
   match fuel with
-  | O => bad 140
+  | O => bad 145
   | S f =>
       if remaining =? 0 then ret remaining else
       t <- get_tls k ;;
@@ -274,15 +274,26 @@ Definition tls_buffered_receive_now (k rxsize : Z) : MX (Z * Z) :=
 Section TlsDriver.
 Variable run_block : Z -> MX unit.
 
-(* DriverReceive: a TLS socket that received handshake data only yields an empty buffer: no handler call *)
+(* DriverReceive: a TLS socket that received handshake data only yields an empty buffer: no handler call. While the engine
+   still holds the rest of a decrypted record (SSL_pending > 0: it will cause no poll event, it has left the kernel) the
+   next buffer is filled and handed over at once (finding F14). Every round consumes one engine event: fuel as in write_loop. *)
+Fixpoint tdriver_receive_loop (fuel : nat) (k : Z) (s : sock) : MX unit :=
+  match fuel with
+  | O => bad 146
+  | S f =>
+      r <- tls_buffered_receive_now k (s_rxsize s) ;;
+      let '(id, n) := r in
+      if n =? 0 then precycle (1000 + k) id
+      else nm <- name_of (1000 + k) id ;;
+           emit K_HANDLER [1; k; nm; n] ;;;
+           with_arg (1000 + k) id (run_block (s_h1 s)) ;;;
+           t <- get_tls k ;;
+           if t_more t then tdriver_receive_loop f k s else ret tt
+  end.
+
 Definition tdriver_receive (k : Z) : MX unit :=
   s <- get_sock k ;;
-  catch (r <- tls_buffered_receive_now k (s_rxsize s) ;;
-         let '(id, n) := r in
-         if n =? 0 then precycle (1000 + k) id
-         else nm <- name_of (1000 + k) id ;;
-              emit K_HANDLER [1; k; nm; n] ;;;
-              with_arg (1000 + k) id (run_block (s_h1 s)))
+  catch (x <- get_ext ;; tdriver_receive_loop (S (length (x_eng x))) k s)
         (fun e => if is_runtime_error e then driver_disconnect run_block k else throw e).
 
 (* DriverSend: an empty queue means the TLS socket asked for the write event itself *)
